@@ -8,6 +8,8 @@ import (
 	"go/types"
 	"strconv"
 	"strings"
+
+	"golang.org/x/tools/go/ssa"
 )
 
 type cval struct {
@@ -715,6 +717,38 @@ func (env *evalEnv) evalCall(x *ECall) cval {
 			evalFail("callres index out of range")
 		}
 		return cval{t: rs[i], sort: srt, typ: typ}
+	case "iscode":
+		// iscode(f, "(*Client).stopLocked$2"): the function value f runs that code
+		argn(2)
+		v := env.eval(x.Args[0])
+		want := typeArg(x.Args[1])
+		var match *ssa.Function
+		pk := ""
+		if env.pkg != nil {
+			pk = env.pkg.Path()
+		}
+		key := stripTypeArgs(qualifyKey(want, pk))
+		match = fx.P.Funcs[key]
+		if match == nil {
+			for k, f := range fx.P.Funcs {
+				if strings.HasSuffix(k, want) {
+					match = f
+				}
+			}
+		}
+		if match == nil {
+			// anonymous functions are not in Funcs: search by name
+			for _, f := range fx.P.moduleFuncs() {
+				if fnKey(f) == key || strings.HasSuffix(fnKey(f), want) {
+					match = f
+				}
+			}
+		}
+		if match == nil {
+			evalFail("iscode: unknown function %s", want)
+		}
+		fx.declare("closcode", "(declare-fun closcode (Int) Int)")
+		return cval{t: fmt.Sprintf("(= (closcode %s) %d)", v.t, fx.fnCode(match)), sort: "Bool"}
 	case "chantyped":
 		// chantyped(c): c is nil or a channel of its static element type
 		argn(1)
